@@ -1,8 +1,8 @@
 Require Extraction.
 From Coq Require Import ExtrOcamlBasic.
-From Cloak Require Import Model.Panel.
+From Cloak Require Import Model.Panel Model.PanelPark.
 Extraction Blacklist List String Int.
 Extraction "../ocaml/gen/c15.ml" init step run_thread enabled at_hook is_done mkCfg mkDb
   table nrec recs nses sess queue db now lkQ lkA lkS nthr thr g_log
   r_uid r_bypass r_sess r_valve r_term s_owner s_sid s_closed d_cap d_credit d_exp rw_w rw_r
-  qsum db_credit slook.
+  qsum db_credit slook at_mgr mpoint_eqb.
